@@ -476,6 +476,17 @@ impl IndexManager {
                 .read_exact(&mut update_data)
                 .map_err(|e| StorageError::Index(format!("Failed to read update section: {e}")))?;
             let section = UpdateSection::from_bytes(&update_data);
+            // Every update entry carries a hash guard over its key, location, size and
+            // status. An entry that fails it is corrupt: loading it would resolve a key
+            // to a wrong location (or resolve a key that was never written)
+            if let Some(bad) = section
+                .all_entries()
+                .position(|e| !e.validate_hash_guard())
+            {
+                return Err(StorageError::Index(format!(
+                    "update entry {bad} of index {id:02x} fails its hash guard"
+                )));
+            }
             if section.entry_count() > 0 {
                 debug!(
                     "Loaded {} update entries from {} pages in index {:02x}",
